@@ -218,6 +218,8 @@ func Layers(tier string) []*Layer {
 			&Layer{Name: "P0+W0", Base: "A", Ops: append(append(TagOps(ids(P0), []string{"#s", "p"}, Vals[:1]), TagOps(ids(W0), []string{"@t", "p"}, Vals[:1])...), AFP0Moved, AFW0Rev)},
 			&Layer{Name: "P1+P2+W1", Base: "A", Ops: append(append(append(TagOps(ids(P1), []string{"@t", "p"}, Vals[:1]), TagOps(ids(P2), []string{"#s", "p"}, Vals[:1])...), TagOps(ids(W1), []string{"p"}, Vals[:1])...), AFP2Untagged, AFP2S, AFW1, AFP1T)},
 			full("A", 4),
+			// every ID, reduced keys/values, two steps deeper
+			&Layer{Name: "lite", Base: "A", Depth: 6, Ops: append(TagOps(ids(P0, P1, W0, P2, W1, Absent), []string{"#s", "p"}, Vals[:1]), AFP2Untagged, AFP2S, AFP0Untagged, AFP0Moved, AFP1T, AFW0Rev, AFW1)},
 		)
 	} else {
 		ls = append(ls, full("A", 2))
